@@ -617,3 +617,17 @@ Example ex_hit_checkpoint :
   let s := run cfg_ck [Call 0 0; Resume 0; WrappedReturns 0 5; Resume 0] in
   snd (step cfg_ck s (Call 1 0)) = RBlocked /\ phase (fst (step cfg_ck s (Call 1 0))) 1 = CHitCk 0 5 false.
 Proof. vm_compute. auto. Qed.
+
+(* the wrapped function raises: the exception reaches exactly the caller that executed it *)
+Example ex_raises :
+  let s := run cfg_m2 [Call 0 0; Call 1 0; WrappedRaises 0 1] in
+  snd (step cfg_m2 s (Resume 0)) = RExc 1 /\
+  snd (step cfg_m2 (fst (step cfg_m2 s (Resume 0))) (Resume 1)) = RBlocked.
+Proof. vm_compute. auto. Qed.
+
+(* a waiter with a ttl: it called at t0 = 0, the value is stored at time 1 and expires at 3 >= t0 + ttl *)
+Example ex_reread_ttl :
+  let s := run cfg_ttl2 [Call 0 0; Call 1 0; Tick; WrappedReturns 0 5; Resume 0] in
+  phase s 1 = CLockWait 0 0 0 /\ snd (step cfg_ttl2 s (Resume 1)) = RRet 5 /\
+  dget 0 (dict s) = Some (EVal 5 (Some 3)).
+Proof. vm_compute. auto. Qed.
